@@ -45,6 +45,8 @@ const (
 
 var c03Mode atomic.Int32 // 0 up, 1 down, 2 store up / ping held
 
+var c03Timeouts atomic.Int32 // recoveries that did not happen within the bound, in this process
+
 func c03Hook(c *server.Peer, cmd string, args ...string) bool {
 	switch c03Mode.Load() {
 	case 1:
@@ -410,8 +412,32 @@ func c03GenToken(r *verifh.Rng) verifh.Section {
 	return verifh.Section{Cfg: fmt.Sprintf("kind=token rate=%d burst=%d ninst=%d", rate, burst, ninst), Ops: ops}
 }
 
+// arguments nothing validates: negative rate / burst / n (rate = 0 is in c03GenToken: the constructor panics).
+// One limiter, reachable store, no clock advance of the store (the keys never expire); the caller's `now` moves.
+func c03GenTokenZ(r *verifh.Rng) verifh.Section {
+	rate := r.Pick(-1, -2, -5, 1, 2, 3, 5)
+	burst := r.Pick(-3, -1, 0, 1, 2, 5, r.Range(-4, 8))
+	negN := rate > 0 && burst >= 0 // then the negative argument is n
+	sec := int64(c03Epoch)
+	var ops []string
+	for j, nops := 0, r.Range(4, 14); j < nops; j++ {
+		if r.Chance(1, 3) {
+			sec += int64(r.Range(1, 3))
+		}
+		n := r.Pick(1, 0, 2, burst, burst+1, r.Range(-3, 6))
+		if negN && (j == 1 || r.Chance(1, 3)) {
+			n = -r.Range(1, 4)
+		}
+		ops = append(ops, fmt.Sprintf("allow %d %d", sec*1000000000+int64(r.Range(0, 999))*1000000, n))
+	}
+	return verifh.Section{Cfg: fmt.Sprintf("kind=tokenz rate=%d burst=%d", rate, burst), Ops: ops}
+}
+
 func c03Gen(r *verifh.Rng) []verifh.Section {
 	var secs []verifh.Section
+	for i, nz := 0, verifh.Scale(10, 60); i < nz; i++ {
+		secs = append(secs, c03GenTokenZ(r))
+	}
 	np, nt := verifh.Scale(48, 400), verifh.Scale(50, 450)
 	for i := 0; i < np; i++ {
 		secs = append(secs, c03GenPeriod(r))
@@ -488,6 +514,20 @@ func TestVerifC03(t *testing.T) {
 			return c03Period(mr, store, cfg)
 		case "token":
 			return c03Token(mr, store, cfg)
+		case "tokenz":
+			l := NewTokenLimiter(cfg.Int("rate", 1), cfg.Int("burst", 1), store, "k")
+			return func(op []string) string {
+				c03CleanBreaker()
+				if op[0] != "allow" {
+					return "bad-op"
+				}
+				res := "no"
+				if l.AllowN(time.Unix(0, verifh.Atoi64(op[1])), verifh.Atoi(op[2])) {
+					res = "ok"
+				}
+				return fmt.Sprintf("%s a=%d %s %s", res, atomic.LoadUint32(&l.redisAlive),
+					c03Dump(mr, "tok", "{k}.tokens"), c03Dump(mr, "ts", "{k}.ts"))
+			}, nil
 		}
 		return func(op []string) string { return "bad-section" }, nil
 	})
@@ -729,12 +769,17 @@ func c03Token(mr *miniredis.Miniredis, store *redis.Redis, cfg verifh.Cfg) (func
 	}
 	recoverAll := func() string {
 		t0 := time.Now()
-		res := settle(20 * time.Second)
+		bound := 20 * time.Second
+		if c03Timeouts.Load() > 0 {
+			bound = 3 * time.Second // a monitor that never comes back must not cost 40 s per `up`
+		}
+		res := settle(bound)
 		if res == "" {
 			// once more: recovery latency is not part of the property, only that it happens
-			res = settle(20 * time.Second)
+			res = settle(bound)
 		}
 		if res == "" {
+			c03Timeouts.Add(1)
 			// diagnosis for the record: what a ping and a plain command see right now
 			_, gerr := store.Get("verif-probe")
 			return fmt.Sprintf("TIMEOUT-monitor waited=%dms ping=%v get=%s %s", time.Since(t0).Milliseconds(),
